@@ -9,13 +9,13 @@
     rerunner.go:95-104  cleanInvalidated   FCleanStart / FClean (one label per entry) / CleanEnd
     rerunner.go:121-126 purgeCache         LPurge, and inside the retry branch of Fail
     rerunner.go:240-260 run(ctx,f)         FBegin / FChildBegin (fresh computation node), Fail
-    rerunner.go:262-289 Cache              OCache: CacheGet (hit -> FCacheLink; miss -> FChildBegin ... FCacheSet, FCacheLink)
+    rerunner.go:262-289 Cache              OCache: KeyLock (per-key ctxMutex), FCacheGet (hit -> FCacheLink; miss -> FChildBegin ... FCacheSet,
+                                           FCacheLink), FKeyUnlock; OPar: goroutines inside one compute function (FJoin / FBranchBegin / FBranchEnd)
     rerunner.go:356-439 Rerunner.run       FRunWait, FRunLock, FCleanStart.., FBegin, FRunEnd (publish), FArm, FUnlock
     rerunner.go:441-452 Stop               FStop false (cancelCtx), FStop true (the r.mu section)
     util.go:10-15       InvalidateAfter    OTimer: TimerNew (NewResource+AfterFunc), FTimerReg (Cleanup), FTimerAdd (AddDependency), LTimer (fires)
 
-    Not modelled: the per-key ctxMutex of Cache (compute scripts are sequential, so it is never contended; the
-    ctx-cancelled error return is modelled as the [arg = 1] branch of CacheGet), flushCh / RerunImmediately,
+    Not modelled: flushCh / RerunImmediately (it only shortens a wait),
     the durations of minRerunInterval / retryDelay / WriteThenReadDelay (a waiting run is simply a task whose
     Wait label is enabled), dependencySet bookkeeping. *)
 From Coq Require Import List Arith Bool.
@@ -28,7 +28,9 @@ Inductive op :=
 | OTimer                            (* InvalidateAfter(tiny) — may be skipped when the harness's budget is used up *)
 | OCache (key : nat) (p : list op)  (* reactive.Cache(ctx, key, p) — a compute function may leave the call out in some runs *)
 | OFail                             (* return a non-retry error (or skip, by budget) *)
-| ORetry.                           (* return RetrySentinelError (or skip, by budget) *)
+| ORetry                            (* return RetrySentinelError (or skip, by budget) *)
+| OPar (bs : list (list op)).       (* run the branches on goroutines of their own, same ctx / computation; wait for all;
+                                       return an error if one of them did *)
 
 Inductive frame :=
 (* graph.go *)
@@ -52,6 +54,11 @@ Inductive frame :=
 | FChildBegin (r key : nat) (p : list op) (parent : nat)
 | FCacheSet (r key child parent : nat)
 | FCacheLink (child parent : nat)
+| FCacheGet (r key : nat) (p : list op) (c : nat)  (* Cache: the per-key lock is held, cache.get is next *)
+| FKeyUnlock (r key : nat)                 (* Cache: deferred cache.locker.Unlock(key) *)
+| FJoin (r jid : nat)                      (* the compute function waits for its branches *)
+| FBranchBegin (jid idx : nat)             (* first action of the idx-th branch goroutine of join jid *)
+| FBranchEnd (jid : nat)                   (* a branch goroutine returns *)
 | FRunEnd (r c : nat)                      (* run(ctx,f) returned: publish *)
 | FArm (r c : nat)                         (* handleInvalidate(c, rerun) *)
 | FUnlock (r : nat)
@@ -69,17 +76,19 @@ Record rr := mkRR {
   r_prog   : list op;              (* r.f *)
   r_spawn  : bool;                 (* alwaysSpawnGoroutine *)
   r_out    : option (list (nat * nat));  (* ghost: value of the last published computation *)
-  r_runs   : nat                   (* ghost: number of computations begun *)
+  r_runs   : nat;                  (* ghost: number of computations begun *)
+  r_keys   : list nat              (* cache.locker: keys whose per-key lock is held *)
 }.
 
-Definition drr : rr := mkRR false None false false false [] false [] true None 0.
+Definition drr : rr := mkRR false None false false false [] false [] true None 0 [].
 
 Record state := mkState {
   s_nodes : graph;
   s_rrs   : list rr;
   s_slots : list (nat * nat);          (* slot -> (version, current resource node) *)
   s_tasks : list (nat * list frame);   (* live tasks by id *)
-  s_tid   : nat                        (* next task id *)
+  s_tid   : nat;                       (* next task id *)
+  s_joins : list (nat * bool)          (* joins of parallel branches: (branches still running, one of them failed) *)
 }.
 
 Inductive label :=
@@ -103,32 +112,36 @@ Fixpoint setl {A} (l : list A) (i : nat) (x : A) : list A :=
   | h :: t, S j => h :: setl t j x
   end.
 
-Definition with_nodes (s : state) (g : graph) : state := mkState g (s_rrs s) (s_slots s) (s_tasks s) (s_tid s).
+Definition with_nodes (s : state) (g : graph) : state := mkState g (s_rrs s) (s_slots s) (s_tasks s) (s_tid s) (s_joins s).
 Definition with_rr (s : state) (r : nat) (x : rr) : state :=
-  mkState (s_nodes s) (setl (s_rrs s) r x) (s_slots s) (s_tasks s) (s_tid s).
+  mkState (s_nodes s) (setl (s_rrs s) r x) (s_slots s) (s_tasks s) (s_tid s) (s_joins s).
 Definition with_slot (s : state) (sl : nat) (x : nat * nat) : state :=
-  mkState (s_nodes s) (s_rrs s) (setl (s_slots s) sl x) (s_tasks s) (s_tid s).
+  mkState (s_nodes s) (s_rrs s) (setl (s_slots s) sl x) (s_tasks s) (s_tid s) (s_joins s).
 Definition with_tasks (s : state) (t : list (nat * list frame)) (k : nat) : state :=
-  mkState (s_nodes s) (s_rrs s) (s_slots s) t k.
+  mkState (s_nodes s) (s_rrs s) (s_slots s) t k (s_joins s).
+Definition with_joins (s : state) (j : list (nat * bool)) : state :=
+  mkState (s_nodes s) (s_rrs s) (s_slots s) (s_tasks s) (s_tid s) j.
 Definition upd_node (s : state) (n : nat) (x : node) : state := with_nodes s (setn (s_nodes s) n x).
 Definition alloc (s : state) (x : node) : state * nat := (with_nodes s (s_nodes s ++ [x]), length (s_nodes s)).
 
 Definition set_mu (x : rr) (b : bool) : rr :=
-  mkRR b (r_comp x) (r_stop x) (r_cancel x) (r_failed x) (r_cache x) (r_clock x) (r_prog x) (r_spawn x) (r_out x) (r_runs x).
+  mkRR b (r_comp x) (r_stop x) (r_cancel x) (r_failed x) (r_cache x) (r_clock x) (r_prog x) (r_spawn x) (r_out x) (r_runs x) (r_keys x).
 Definition set_clock (x : rr) (b : bool) : rr :=
-  mkRR (r_mu x) (r_comp x) (r_stop x) (r_cancel x) (r_failed x) (r_cache x) b (r_prog x) (r_spawn x) (r_out x) (r_runs x).
+  mkRR (r_mu x) (r_comp x) (r_stop x) (r_cancel x) (r_failed x) (r_cache x) b (r_prog x) (r_spawn x) (r_out x) (r_runs x) (r_keys x).
 Definition set_cache (x : rr) (c : list (nat * nat)) : rr :=
-  mkRR (r_mu x) (r_comp x) (r_stop x) (r_cancel x) (r_failed x) c (r_clock x) (r_prog x) (r_spawn x) (r_out x) (r_runs x).
+  mkRR (r_mu x) (r_comp x) (r_stop x) (r_cancel x) (r_failed x) c (r_clock x) (r_prog x) (r_spawn x) (r_out x) (r_runs x) (r_keys x).
 Definition set_cancel (x : rr) : rr :=
-  mkRR (r_mu x) (r_comp x) (r_stop x) true (r_failed x) (r_cache x) (r_clock x) (r_prog x) (r_spawn x) (r_out x) (r_runs x).
+  mkRR (r_mu x) (r_comp x) (r_stop x) true (r_failed x) (r_cache x) (r_clock x) (r_prog x) (r_spawn x) (r_out x) (r_runs x) (r_keys x).
 Definition set_failed (x : rr) : rr :=
-  mkRR (r_mu x) (r_comp x) (r_stop x) (r_cancel x) true (r_cache x) (r_clock x) (r_prog x) (r_spawn x) (r_out x) (r_runs x).
+  mkRR (r_mu x) (r_comp x) (r_stop x) (r_cancel x) true (r_cache x) (r_clock x) (r_prog x) (r_spawn x) (r_out x) (r_runs x) (r_keys x).
 Definition set_stopped (x : rr) : rr :=
-  mkRR (r_mu x) None true (r_cancel x) (r_failed x) (r_cache x) (r_clock x) (r_prog x) (r_spawn x) (r_out x) (r_runs x).
+  mkRR (r_mu x) None true (r_cancel x) (r_failed x) (r_cache x) (r_clock x) (r_prog x) (r_spawn x) (r_out x) (r_runs x) (r_keys x).
 Definition set_published (x : rr) (c : nat) (v : list (nat * nat)) : rr :=
-  mkRR (r_mu x) (Some c) (r_stop x) (r_cancel x) (r_failed x) (r_cache x) (r_clock x) (r_prog x) (r_spawn x) (Some v) (r_runs x).
+  mkRR (r_mu x) (Some c) (r_stop x) (r_cancel x) (r_failed x) (r_cache x) (r_clock x) (r_prog x) (r_spawn x) (Some v) (r_runs x) (r_keys x).
+Definition set_keys (x : rr) (k : list nat) : rr :=
+  mkRR (r_mu x) (r_comp x) (r_stop x) (r_cancel x) (r_failed x) (r_cache x) (r_clock x) (r_prog x) (r_spawn x) (r_out x) (r_runs x) k.
 Definition inc_runs (x : rr) : rr :=
-  mkRR (r_mu x) (r_comp x) (r_stop x) (r_cancel x) (r_failed x) (r_cache x) (r_clock x) (r_prog x) (r_spawn x) (r_out x) (S (r_runs x)).
+  mkRR (r_mu x) (r_comp x) (r_stop x) (r_cancel x) (r_failed x) (r_cache x) (r_clock x) (r_prog x) (r_spawn x) (r_out x) (S (r_runs x)) (r_keys x).
 
 Fixpoint cache_get (c : list (nat * nat)) (k : nat) : option nat :=
   match c with
@@ -158,31 +171,51 @@ Definition do_add_out (s : state) (n to : nat) : option (state * list (list fram
   else None.
 
 (** run() returned an error somewhere inside the compute function of rerunner r: every computation that is
-    open on this stack is released (rerunner.go:252-255, through Cache's error return :281-284), down to
-    and including the rerunner's own (:400).  Returns those computations (innermost first) and the frames
-    below FRunEnd.  The frames of one run all carry the run's rerunner; a stack on which they do not is not
-    a stack of the Go program and is rejected. *)
-Fixpoint unwind (r : nat) (st : list frame) : option (list nat * list frame) :=
+    open on this stack is released (rerunner.go:252-255, through Cache's error return :281-284) and the per-key
+    locks taken on the way are given back (deferred Unlock, :274), down to and including the rerunner's own
+    computation (:400) — or down to the end of the branch goroutine, if the error happened on one.  Returns
+    those computations (innermost first), the keys, the frames below, and the join of the branch if any.  The
+    frames of one run all carry the run's rerunner; a stack on which they do not is not a stack of the Go
+    program and is rejected. *)
+Fixpoint unwind (r : nat) (st : list frame) : option (list nat * list nat * list frame * option nat) :=
   match st with
   | [] => None
-  | FRunEnd r' c :: rest => if Nat.eqb r r' then Some ([c], rest) else None
+  | FRunEnd r' c :: rest => if Nat.eqb r r' then Some ([c], [], rest, None) else None
+  | FBranchEnd jid :: rest => Some ([], [], rest, Some jid)
   | FCacheSet r' _ child _ :: rest =>
       if Nat.eqb r r' then
-        match unwind r rest with Some (cs, below) => Some (child :: cs, below) | None => None end
+        match unwind r rest with Some (cs, ks, below, t) => Some (child :: cs, ks, below, t) | None => None end
+      else None
+  | FKeyUnlock r' key :: rest =>
+      if Nat.eqb r r' then
+        match unwind r rest with Some (cs, ks, below, t) => Some (cs, key :: ks, below, t) | None => None end
       else None
   | FScript r' _ _ :: rest => if Nat.eqb r r' then unwind r rest else None
   | _ => None
   end.
 
+Fixpoint remove_keys (ks held : list nat) : list nat :=
+  match ks with [] => held | k :: t => remove_keys t (remove1 k held) end.
+
+Definition set_join_failed (j : list (nat * bool)) (jid : nat) : list (nat * bool) :=
+  setl j jid (fst (nth jid j (0, false)), true).
+
 Definition do_fail (s : state) (r : nat) (st : list frame) (retry : bool) : result :=
   match unwind r st with
   | None => None
-  | Some (cs, below) =>
+  | Some (cs, ks, below, term) =>
       let x := getr s r in
+      let x1 := set_keys x (remove_keys ks (r_keys x)) in
       let rels := map (fun c => [FRelEnter c]) cs in
-      if retry
-      then Some (with_rr s r (set_cache x []), FUnlock r :: below, rels ++ [[FRunWait r]])
-      else Some (with_rr s r (set_failed x), FUnlock r :: below, rels)
+      match term with
+      | None =>
+          if retry
+          then Some (with_rr s r (set_cache x1 []), FUnlock r :: below, rels ++ [[FRunWait r]])
+          else Some (with_rr s r (set_failed x1), FUnlock r :: below, rels)
+      | Some jid =>
+          (* the branch goroutine returns the error to the compute function, which will return it after the join *)
+          Some (with_joins (with_rr s r x1) (set_join_failed (s_joins s) jid), FBranchEnd jid :: below, rels)
+      end
   end.
 
 (** The critical section of [invalidate] on node n and the handler call that follows it (graph.go:77-98);
@@ -202,6 +235,12 @@ Definition inv_step (s : state) (n : nat) (k : list frame) : result :=
       | None => Some (s', FInvList (n_out nd) :: k, [])
       end
   else None.
+
+Fixpoint branch_tasks (jid r c : nat) (bs : list (list op)) (i : nat) : list (list frame) :=
+  match bs with
+  | [] => []
+  | b :: t => [FBranchBegin jid i; FScript r c b; FBranchEnd jid] :: branch_tasks jid r c t (S i)
+  end.
 
 Definition step_top (s : state) (f : frame) (rest : list frame) (arg : nat) : result :=
   match f with
@@ -277,14 +316,14 @@ Definition step_top (s : state) (f : frame) (rest : list frame) (arg : nat) : re
           else let '(s1, k) := alloc s new_timer in
                Some (s1, FTimerReg c k :: FScript r c q :: rest, [])
       | OCache key body :: q =>
+          (* rerunner.go:271-274: cache.locker.Lock(ctx, key); arg 0 = acquired (the key must be free),
+             arg 1 = ctx.Done() won the select, arg 2 = the compute function does not call Cache this time *)
           if Nat.eqb arg 0 then
-            match cache_get (r_cache (getr s r)) key with
-            | Some child =>
-                (* the cache cannot hold the computation that is running (it is stored when it has returned) *)
-                if Nat.eqb child c then None else Some (s, FCacheLink child c :: FScript r c q :: rest, [])
-            | None => Some (s, FChildBegin r key body c :: FScript r c q :: rest, [])
-            end
-          else if Nat.eqb arg 2 then Some (s, FScript r c q :: rest, [])   (* the compute function does not call Cache this time *)
+            let x := getr s r in
+            if memb key (r_keys x) then None
+            else Some (with_rr s r (set_keys x (key :: r_keys x)),
+                       FCacheGet r key body c :: FKeyUnlock r key :: FScript r c q :: rest, [])
+          else if Nat.eqb arg 2 then Some (s, FScript r c q :: rest, [])
           else if r_cancel (getr s r) then do_fail s r (FScript r c q :: rest) false else None
       | OFail :: q =>
           if Nat.eqb arg 0 then Some (s, FScript r c q :: rest, [])
@@ -292,6 +331,11 @@ Definition step_top (s : state) (f : frame) (rest : list frame) (arg : nat) : re
       | ORetry :: q =>
           if Nat.eqb arg 0 then Some (s, FScript r c q :: rest, [])
           else do_fail s r (FScript r c q :: rest) true
+      | OPar bs :: q =>
+          let jid := length (s_joins s) in
+          Some (with_joins s (s_joins s ++ [(length bs, false)]),
+                FJoin r jid :: FScript r c q :: rest,
+                branch_tasks jid r c bs 0)
       end
   | FDepAdd c sl n =>
       match do_add_out s n c with Some (s1, sp) => Some (s1, FDepRead c sl :: rest, sp) | None => None end
@@ -320,6 +364,23 @@ Definition step_top (s : state) (f : frame) (rest : list frame) (arg : nat) : re
       | Some (s1, sp) => Some (upd_node s1 parent (add_val (getN s1 parent) (n_val (getN s1 child))), rest, sp)
       | None => None
       end
+  | FCacheGet r key body c =>
+      (* rerunner.go:276-281: cache.get under cache.mu *)
+      match cache_get (r_cache (getr s r)) key with
+      | Some child =>
+          (* the cache cannot hold the computation that is running (it is stored when it has returned) *)
+          if Nat.eqb child c then None else Some (s, FCacheLink child c :: rest, [])
+      | None => Some (s, FChildBegin r key body c :: rest, [])
+      end
+  | FKeyUnlock r key =>
+      let x := getr s r in Some (with_rr s r (set_keys x (remove1 key (r_keys x))), rest, [])
+  | FJoin r jid =>
+      let '(n, failed) := nth jid (s_joins s) (0, false) in
+      if Nat.eqb n 0 then (if failed then do_fail s r rest false else Some (s, rest, [])) else None
+  | FBranchBegin _ _ => Some (s, rest, [])
+  | FBranchEnd jid =>
+      let '(n, failed) := nth jid (s_joins s) (0, false) in
+      Some (with_joins s (setl (s_joins s) jid (Nat.pred n, failed)), rest, [])
   | FRunEnd r c =>
       (* rerunner.go:421-427 *)
       let x := getr s r in
@@ -424,11 +485,11 @@ Fixpoint init_nodes (n k : nat) : graph :=
 Fixpoint init_tasks (n k : nat) : list (nat * list frame) :=
   match n with 0 => [] | S m => (k, [FRunWait k]) :: init_tasks m (S k) end.
 
-Definition init_rr (ps : list op * bool) : rr := mkRR false None false false false [] false (fst ps) (snd ps) None 0.
+Definition init_rr (ps : list op * bool) : rr := mkRR false None false false false [] false (fst ps) (snd ps) None 0 [].
 
 Definition init (nslots : nat) (progs : list (list op * bool)) : state :=
   mkState (init_nodes nslots 0) (map init_rr progs) (init_slots nslots 0)
-          (init_tasks (length progs) 0) (length progs).
+          (init_tasks (length progs) 0) (length progs) [].
 
 Definition quiescent (s : state) : Prop := s_tasks s = [].
 Definition quiescentb (s : state) : bool := is_nil (s_tasks s).
